@@ -104,3 +104,74 @@ def gen_vanilla(rng: random.Random, nq: int, n_blocks: int, use_load: bool = Fal
         prog[br][1][1] = len(prog)
     prog_len = len(prog)
     return prog, {"loaded_two_qubit": loaded_two_qubit, "len": prog_len}
+
+
+
+def gen_vanilla_heads(rng: random.Random, nq: int):
+    """Programs in which a branch or jump targets a GATE itself (loop heads and forward branches), the gate's operand
+    registers being set before the branch; several operand registers (Q0..Q5) are in use, some only later in the text,
+    some pointing elsewhere on the path not taken.  Every gate still executes with registers that were written by `set`
+    on every path reaching it and that hold the same qubit on each of them (so a flow-insensitive reading of the text
+    agrees with the run)."""
+    prog: List[list] = []
+    for v in range(nq):
+        prog += [["set", [["Q", 0], v]], ["qalloc", [["Q", 0]]], ["init", [["Q", 0]]], ["set", [["Q", 0], v]],
+                 [rng.choice(["h", "x", "k"]), [["Q", 0]]]]
+
+    def two(ra, rb, a=None, b=None, setregs=True):
+        if a is None:
+            a, b = rng.sample(range(nq), 2)
+        out = []
+        if setregs:
+            out += [["set", [["Q", ra], a]], ["set", [["Q", rb], b]]]
+        return out, [rng.choice(["cnot", "cphase"]), [["Q", ra], ["Q", rb]]]
+
+    def one(r, v=None):
+        v = rng.randrange(nq) if v is None else v
+        g = [rng.choice(SINGLE), [["Q", r]]] if rng.random() < 0.6 else ["rot_" + rng.choice("xyz"), [["Q", r], rng.randrange(32), rng.choice([1, 2, 3, 4])]]
+        return [["set", [["Q", r], v]]], g
+
+    for _ in range(rng.randrange(1, 4)):
+        shape = rng.choice(["loop-head", "forward", "bystander"])
+        if shape == "loop-head":
+            ra, rb = rng.sample([0, 1, 2], 2)
+            pre, g = two(ra, rb) if nq >= 2 and rng.random() < 0.8 else one(ra)
+            cnt = rng.choice([1, 2, 3])
+            prog += pre + [["set", [["R", 0], 0]], ["set", [["C", 0], cnt]], ["set", [["C", 10], 1]]]
+            head = len(prog)
+            prog.append(g)                       # the loop head is the gate itself
+            for _j in range(rng.randrange(0, 3)):  # the body uses other registers, each set right before use
+                r = rng.choice([3, 4, 5])
+                if nq >= 2 and rng.random() < 0.5:
+                    r2 = rng.choice([x for x in (3, 4, 5) if x != r])
+                    p2, g2 = two(r, r2)
+                else:
+                    p2, g2 = one(r)
+                prog += p2 + [g2]
+            prog += [["add", [["R", 0], ["R", 0], ["C", 10]]], ["blt", [["R", 0], ["C", 0], head]]]
+        elif shape == "forward":
+            ra, rb = rng.sample([0, 1, 2, 3], 2)
+            pre, g = two(ra, rb) if nq >= 2 and rng.random() < 0.8 else one(ra)
+            v = rng.randrange(nq)
+            prog += pre + [["set", [["Q", 4], v]], ["meas", [["Q", 4], ["M", 1]]]]
+            br = len(prog)
+            prog.append([rng.choice(["bez", "bnz"]), [["M", 1], None]])
+            p2, g2 = one(5)
+            prog += p2 + [g2]
+            prog[br][1][1] = len(prog)           # the branch lands on the gate itself
+            prog.append(g)
+        else:
+            # a bystander register that points at the electron on one path only, then a two-qubit gate on other registers
+            v = rng.randrange(nq)
+            other = rng.randrange(1, nq) if nq >= 2 else 0
+            prog += [["set", [["Q", 5], other]], ["set", [["Q", 4], v]], ["meas", [["Q", 4], ["M", 2]]]]
+            br = len(prog)
+            prog.append([rng.choice(["bez", "bnz"]), [["M", 2], None]])
+            prog += [["set", [["Q", 5], 0]], [rng.choice(["h", "z", "s"]), [["Q", 5]]]]
+            prog[br][1][1] = len(prog)
+            if nq >= 2:
+                pre, g = two(0, 1)
+                prog += pre + [g]
+            # afterwards the bystander is used for what it points at on the other path
+            prog += [["set", [["Q", 5], other]], [rng.choice(["x", "h"]), [["Q", 5]]]]
+    return prog, {"loaded_two_qubit": False, "len": len(prog)}
